@@ -47,9 +47,12 @@ def ref_move(al, ref, mv, cur, ipp):
 
 
 def seq_classes():
+    """repeated fields with per-element alignment a, elements of w bytes, read by the count loop (A) and by the until loop (U)"""
     blocks = []
     for a in range(1, 7):
-        blocks.append(dict(name=f"SeqA{a}", src=f"class SeqA{a}(Packet):\n    n = Int(1)\n    xs = Int(1).repeated(n, aligned={a})\n    t = Int(1)\n"))
+        for w in (1, 2):
+            blocks.append(dict(name=f"SeqA{a}w{w}", src=f"class SeqA{a}w{w}(Packet):\n    n = Int(1)\n    xs = Int({w}).repeated(n, aligned={a})\n    t = Int(1)\n"))
+            blocks.append(dict(name=f"SeqU{a}w{w}", src=f"class SeqU{a}w{w}(Packet):\n    n = Int(1)\n    xs = Int({w}).repeated(until=lambda pkt, raw=b'', offset=0, **k: len(pkt.xs) >= pkt.n, aligned={a})\n    t = Int(1)\n"))
     return blocks
 
 
@@ -92,27 +95,31 @@ def run(tier, seed, rng):
     for a in range(1, 7):
         for off in range(0, 8 if tier == 'quick' else 16):
             for n in (0, 1, 2, 3):
-                # build an input: offset padding, n, then elements each at the next multiple of a (absolute)
-                raw = bytearray(b'P' * off) + bytes([n])
-                pos = off + 1
-                elems = []
-                for i in range(n):
-                    while pos % a:
-                        raw.append(0x2e); pos += 1
-                    raw.append(0x41 + i); elems.append(0x41 + i); pos += 1
-                raw.append(0x7a); pos += 1
-                scases.append(dict(cls=f"SeqA{a}", op='roundtrip', raw=bytes(raw).hex(), offset=off))
-                smeta.append((a, off, n, elems, pos, bytes(raw)))
-                lines_pos = off + 1
-                for i in range(n):
-                    got = lines_pos + ((a - lines_pos % a) % a)
-                    lines.append(f"SA {a} {lines_pos} (Some {got})")
-                    lines_pos = got + 1
+                for w in (1, 2):
+                    # build an input: offset padding, n, then elements each at the next multiple of a (absolute)
+                    raw = bytearray(b'P' * off) + bytes([n])
+                    pos = off + 1
+                    elems = []
+                    for i in range(n):
+                        while pos % a:
+                            raw.append(0x2e); pos += 1
+                        raw += bytes([0] * (w - 1) + [0x41 + i]); elems.append(0x41 + i); pos += w
+                    raw.append(0x7a); pos += 1
+                    scases.append(dict(cls=f"SeqA{a}w{w}", op='roundtrip', raw=bytes(raw).hex(), offset=off))
+                    smeta.append((a, off, n, elems, pos, bytes(raw)))
+                    if n >= 1:
+                        scases.append(dict(cls=f"SeqU{a}w{w}", op='roundtrip', raw=bytes(raw).hex(), offset=off))
+                        smeta.append((a, off, n, elems, pos, bytes(raw)))
+                    lines_pos = off + 1
+                    for i in range(n):
+                        got = lines_pos + ((a - lines_pos % a) % a)
+                        lines.append(f"SA {a} {lines_pos} (Some {got})")
+                        lines_pos = got + w
     res = run_impl(os.path.join(VERIF, 'harness', 'impl_pkt.py'), dict(header=HEADER_PY, blocks=blocks, modname='c10', cases=scases))
     for (a, off, n, elems, end, raw), o in zip(smeta, res['outcomes']):
         ok = 'ok' in o and dict(o['ok']['f'])['xs'] == elems and o.get('end') == end and dict(o['ok']['f'])['t'] == 0x7a
         if not ok:
-            failures.append(dict(kind='oracle', sig='seq-align', what='repeated(aligned=a): elements not read at the next multiples of a',
+            failures.append(dict(kind='oracle', sig='seq-align', what='repeated(count or until, aligned=a): elements not read at the next multiples of a',
                                  aligned=a, offset=off, raw=raw.hex(), observed=o, required=dict(xs=elems, end=end)))
         elif off == 0:
             # serializing: skipped bytes filled with '.', same positions (start offset 0: see finding D10 for other offsets)
